@@ -19,14 +19,15 @@ import (
 )
 
 type c11ShardResult struct {
-	Schedules int64
-	Scenarios int
-	MaxPoints int
-	Outcomes  int
-	Capped    bool
-	Findings  []report.Violation
-	Errors    []string
-	Sample    map[string]interface{}
+	Schedules       int64
+	Scenarios       int
+	MaxPoints       int
+	Outcomes        int
+	Capped          bool
+	Findings        []report.Violation
+	Errors          []string
+	Sample          map[string]interface{}
+	CappedScenarios int
 }
 
 func c11RunScenario(sc c11Scenario, res *c11ShardResult, budget int64) {
@@ -105,6 +106,7 @@ func c11RunScenario(sc c11Scenario, res *c11ShardResult, budget int64) {
 	res.Outcomes += len(ex.Outcomes)
 	if ex.Capped {
 		res.Capped = true
+		res.CappedScenarios++
 	}
 	if res.Sample == nil && ex.Schedules > 50 {
 		var outs []string
@@ -139,7 +141,7 @@ func C11Shard(args []string) int {
 	res := &c11ShardResult{}
 	budget := int64(50000)
 	if thorough {
-		budget = 1000000
+		budget = 150000
 	}
 	for j, sc := range c11Scenarios(thorough) {
 		if j%n == i {
@@ -181,8 +183,9 @@ func C11(run *report.Run) {
 	}
 	wg.Wait()
 	var schedules int64
-	scen, maxp, outc := 0, 0, 0
+	scen, maxp, outc, capped := 0, 0, 0, 0
 	for _, r := range results {
+		capped += r.CappedScenarios
 		schedules += r.Schedules
 		scen += r.Scenarios
 		outc += r.Outcomes
@@ -208,6 +211,9 @@ func C11(run *report.Run) {
 	run.Validated = schedules
 	run.Extra["schedules_explored"] = schedules
 	run.Extra["scenarios"] = scen
+	if capped > 0 {
+		run.Extra["scenarios_cut_at_the_schedule_budget"] = capped
+	}
 	run.Extra["max_scheduling_points_in_one_execution"] = maxp
 	run.Extra["distinct_outcomes_summed_over_scenarios"] = outc
 	run.Extra["sync_level"] = true
